@@ -70,7 +70,9 @@ pub(crate) fn send_sync<T: Send>(shared: &Arc<Shared<T>>, item: T) -> Result<(),
     match shared.ring.push(item) {
       Ok(()) => {
         if let Some(id) = my_id {
-          shared.unregister(Role::Send, id);
+          // Still linked as far as we know. If a notifier dequeued us meanwhile, its
+          // wake went to a waiter that no longer waits: pass it on.
+          shared.cancel_wait(Role::Send, id);
         }
         shared.notify_receivers();
         THREAD_SPIN_LIMIT.with(|c| { let cur = c.get(); c.set((cur + 1).min(SPIN_MAX)); });
@@ -121,7 +123,8 @@ pub(crate) fn recv_sync<T: Send>(shared: &Arc<Shared<T>>) -> Result<T, RecvError
     // and every wake.
     if let Some(item) = shared.ring.pop() {
       if let Some(id) = my_id {
-        shared.unregister(Role::Recv, id);
+        // See `send_sync`: a wake that raced with our own success is passed on.
+        shared.cancel_wait(Role::Recv, id);
       }
       shared.notify_senders();
       THREAD_SPIN_LIMIT.with(|c| { let cur = c.get(); c.set((cur + 1).min(SPIN_MAX)); });
@@ -133,7 +136,7 @@ pub(crate) fn recv_sync<T: Send>(shared: &Arc<Shared<T>>) -> Result<T, RecvError
       // One last drain in case a sender published then dropped.
       if let Some(item) = shared.ring.pop() {
         if let Some(id) = my_id {
-          shared.unregister(Role::Recv, id);
+          shared.cancel_wait(Role::Recv, id);
         }
         shared.notify_senders();
         return Ok(item);
@@ -209,7 +212,7 @@ pub(crate) fn recv_timeout_sync<T: Send>(
     shared.pre_park_fence();
 
     if let Some(item) = shared.ring.pop() {
-      shared.unregister(Role::Recv, id);
+      shared.cancel_wait(Role::Recv, id);
       shared.notify_senders();
       return Ok(item);
     }
@@ -286,7 +289,13 @@ pub(crate) fn send_batch_sync<T: Send>(
 ) -> Result<usize, SendBatchError<T>> {
   let mut iter = items.into_iter();
   let mut sent = 0usize;
+  // Same discipline as `send_sync`: `my_id` is `Some` only while we believe we are
+  // linked, and a registration never outlives the push it was made for - a stale
+  // entry left behind by a sender that is no longer waiting would swallow the one
+  // wake meant for a sender that is.
   let mut my_id: Option<u64> = None;
+  let notified = AtomicBool::new(false);
+  let notified_ptr = &notified as *const AtomicBool;
 
   while let Some(mut item) = iter.next() {
     loop {
@@ -301,6 +310,10 @@ pub(crate) fn send_batch_sync<T: Send>(
       }
       match shared.ring.push(item) {
         Ok(()) => {
+          if let Some(id) = my_id.take() {
+            shared.cancel_wait(Role::Send, id);
+            notified.store(false, Ordering::Relaxed);
+          }
           sent += 1;
           shared.notify_receivers();
           break;
@@ -308,28 +321,23 @@ pub(crate) fn send_batch_sync<T: Send>(
         Err(returned) => item = returned,
       }
 
-      let id = shared.register(Role::Send, my_id, WakeRef::Thread(thread::current()), ptr::null());
-      my_id = Some(id);
-      shared.pre_park_fence();
-
-      match shared.ring.push(item) {
-        Ok(()) => {
-          sent += 1;
-          shared.notify_receivers();
-          break;
+      if my_id.is_some() {
+        // Already linked (the Dekker recheck above failed): park.
+        thread::park();
+        if notified.swap(false, Ordering::Acquire) {
+          // Dequeued by `wake_one`: the wake is ours to use on the next push.
+          my_id = None;
         }
-        Err(returned) => item = returned,
-      }
-      if !shared.receivers_alive() {
         continue;
       }
-      thread::park();
+
+      // Register, fence, then loop for the Dekker recheck before parking.
+      let id = shared.register(Role::Send, None, WakeRef::Thread(thread::current()), notified_ptr);
+      my_id = Some(id);
+      shared.pre_park_fence();
     }
   }
 
-  if let Some(id) = my_id.take() {
-    shared.unregister(Role::Send, id);
-  }
   Ok(sent)
 }
 
